@@ -1,0 +1,43 @@
+//go:build verif
+
+package pppoe
+
+// Verification accessors for property C04 (session ownership over the complete session record).
+// Read-only; compiled in only with -tags verif.
+
+import "time"
+
+// VerifC04Record is the part of a Session record that VerifC04Snapshot does not project: what
+// handlePADR and handlePAP store from the client's frames, and the idle clock cleanupLoop reads.
+type VerifC04Record struct {
+	HasHostUniq bool // Session.HostUniq != nil
+	HostUniq    []byte
+	ServiceName string
+	Username    string
+	AuthMethod  string
+	Idle        time.Duration // time.Since(LastActivity)
+}
+
+// VerifC04Records returns the extra projection of every session, keyed by Session.SessionID.
+func (s *Server) VerifC04Records() map[string]VerifC04Record {
+	m := s.sessions
+	m.mu.RLock()
+	defer m.mu.RUnlock()
+	out := make(map[string]VerifC04Record, len(m.sessions))
+	for _, se := range m.sessions {
+		se.mu.RLock()
+		out[se.SessionID] = VerifC04Record{
+			HasHostUniq: se.HostUniq != nil,
+			HostUniq:    append([]byte(nil), se.HostUniq...),
+			ServiceName: se.ServiceName,
+			Username:    se.Username,
+			AuthMethod:  se.AuthMethod,
+			Idle:        time.Since(se.LastActivity),
+		}
+		se.mu.RUnlock()
+	}
+	return out
+}
+
+// VerifC04SessionTimeout returns the configured idle timeout (0: cleanupLoop uses its default).
+func (s *Server) VerifC04SessionTimeout() time.Duration { return s.sessionTimeout }
